@@ -73,7 +73,7 @@ def flatten_events(finds):
 
 
 def tree_text(rj):
-    return json.dumps([rj['expr'], rj['idents']], sort_keys=True)
+    return json.dumps([rj['expr'], rj['idents'], rj.get('engine_probe_mismatches')], sort_keys=True)
 
 
 def collect_variants(ck, br, yaml, repeats, combos=None, on_panic=None):
@@ -126,3 +126,11 @@ def any_node(j, pred):
     if pred(j):
         return True
     return any(any_node(c, pred) for c in children(j))
+
+
+def probe_docs(rj):
+    """documents derived from the bridge's engine-object probes: one string field each"""
+    out = []
+    for m in rj.get('engine_probe_mismatches', []) or []:
+        out.append(({'$obj': [[m['field'], {'$str': m['probe']}]]}, m['what']))
+    return out
